@@ -1,6 +1,7 @@
 import Hertz.Model.Http1.RespRead
 import Hertz.Proofs.RespRoundtrip
 import Hertz.Proofs.RespTrailers
+import Hertz.Proofs.RespBodiless
 import Hertz.Proofs.ReqDecodes
 /-!
 # C11 — client requests reach the server intact and responses come back intact
@@ -21,8 +22,8 @@ Proved for all inputs:
 * `max_size_enforced`: with a positive `MaxResponseBodySize` no accepted response has a longer body;
 * `bodiless_status_no_body`: 1xx/204/304 responses never carry a body whatever framing fields they have;
 * `response_roundtrip` (reader ∘ writer = identity): for every well-formed response `r` (`RT.wfResp`:
-  status that may carry a body and fits an `int`, reason/values free of CR/LF and of blanks at either
-  end, generic fields with non-empty valid names in normalised form that are none of the eight names
+  status that may carry a body and fits an `int`, reason/values free of CR/LF and of blanks (SP, HTAB:
+  the optional whitespace the reader trims since /repo 4c60fb1) at either end, generic fields with non-empty valid names in normalised form that are none of the eight names
   the reader keeps in dedicated fields, body by `Content-Length` or chunked with pieces below `16^15`
   bytes) and every `rest`, with the size limit off or not below the body length, under either end
   behaviour, `readResponse (respWire r ++ rest)` is `r`'s status, dedicated fields, generic fields in
@@ -43,20 +44,38 @@ Proved for all inputs:
   body and trailers, leaving exactly `rest`;
 * `response_roundtrip_trailers`: the same for a streamed (chunked) response that sets trailer fields
   (`RT.wfRespT`: every trailer field well-formed, its name kept by `SetTrailers` - no comma, not one
-  of the forbidden trailer names - and not starting with `0`): the `Trailer:` declaration is read
-  back as exactly the names, the trailer section as exactly the fields, in order, duplicates included.
+  of the forbidden trailer names; a name MAY start with `0`, see `exTrailers0`): the `Trailer:`
+  declaration is read back as exactly the names, the trailer section as exactly the fields, in order,
+  duplicates included;
+* `response_head_roundtrip_framed`: `ReadHeaders` on the head `resp.Write` produces for ANY status but
+  the interim 100 and each framing the writer can decide (`Content-Length: n`, `chunked`, none) returns
+  the head `RT.WResp.seenHeadFor` spells out and stops at its end; `response_wire_nonHEAD` says that the
+  wire used here (`RT.respWireH r isHead` = C05 header model on `hdrFor (frame …).framing` ++ `frame …
+  .wire`) is `respWire` of the theorems above when the request was not HEAD;
+* `response_roundtrip_bodiless`: statuses that forbid a body (1xx other than 100, 204, 304;
+  `RT.wfBodiless`), whatever body the handler set, HEAD request or not: the reader returns the head
+  (`cl = -2`, no framing field), an empty body, no trailers, and leaves exactly `rest`;
+  `response_roundtrip_bodiless_declared`: the same when the head still announces `Content-Length: n` or
+  `chunked` (status changed to 204 after `SetBodyStream`): the announcement is ignored, nothing consumed;
+* `response_head_HEAD`, `response_roundtrip_HEAD`: the answer to a HEAD request (`RT.wfRespH`: any status
+  but 100, body length below 2^63): the head carries the framing of the body that was not sent
+  (`headFraming`: `Content-Length` of a non-empty byte body, `chunked` for a stream, nothing for an empty
+  body - then the reader notes "identity until close"), no body byte is on the wire, `ReadHeaders`
+  stops exactly at the end of the head; with the client's `SkipBody` flag (`RT.readResponseSkip true`;
+  `skipbody_off_is_readResponse`: with the flag off it IS the model function) the result is the head, an
+  empty body and `rest`;
+* `response_roundtrip_until_close`: a response framed by closing the connection (head without
+  `Content-Length`/`Transfer-Encoding`, status that may carry a body, `RT.wfRespC`), under either end
+  behaviour (`readBodyIdentity` stops at the first read error, EOF or time-out): the body is every byte
+  after the head, `rest` is empty, the head is that of the `Content-Length` case with `Connection: close`.
 
 TODO-OPEN (not proved as theorems; evaluated per explored case by the spec step):
-* trailer names starting with `0`: in the model of `parseTrailer` this copy was built from ("skip any
-  0 length chunk": three bytes are skipped whenever the trailer part starts with `0`) such a field
-  cannot round-trip; `/repo` has since been repaired (commit "a trailer field whose name starts with
-  '0' no longer desynchronises the connection") and the model in /verif follows; the hypothesis
-  `kv.1.head? != some 48` in `wfRespT` is then stronger than needed (the proofs build unchanged
-  against the repaired `Model/Http1/Body.lean`);
-* `response_roundtrip` for bodiless statuses (1xx except 100, 204, 304: head only) and for the
-  read-until-close framing (no `Content-Length`, no chunking, `Connection: close`);
+* the `SkipBody` flag of the client (`RT.readResponseSkip true`, three lines restating the first `if` of
+  `ReadRespBody`) is a definition of the proof file: the harness op `respread` never sets the flag, so
+  this branch is not part of the correspondence check (`response_head_HEAD`, about the model function
+  `readHeaders`, is);
 * field names that are not in `normalizeKey` form when normalisation is on (the reader returns the
-  normalised name), values with blanks at the ends (the reader trims them): excluded by `wfResp`;
+  normalised name), values with SP/HTAB at the ends (the reader trims them): excluded by `wfResp`;
 * the hijacked chunked writer (`Resp.writerWire`) as a body source of `WResp` (its wire equals
   `chunkedWire` of the non-empty writes; C04 `writer_body_decodes` covers the strict reader).
 Observed, outside the property (C05 covers CR/LF only): NUL and other control bytes in header values
@@ -260,6 +279,119 @@ theorem response_roundtrip_trailers (dn : Bool) (maxBody : Nat) (e : End) (r : W
   H1.RT.response_roundtrip_trailers dn maxBody e r rest hw hmax
 
 example : H1.RT.wfRespT false H1.RT.exTrailers = true := by decide +kernel
+
+/-- non-vacuity for a trailer name starting with `0` (`0a: b`, the witness of the repaired
+desynchronisation f1dae26): well-formed, hence covered by the theorem -/
+example : H1.RT.wfRespT false H1.RT.exTrailers0 = true := by decide +kernel
+
+
+/-! ### the cases without a length-delimited body: bodiless statuses, HEAD, read until close -/
+
+open Hertz.H1.RT in
+/-- the wire of the theorems below is the wire of `response_roundtrip` when the request was not HEAD -/
+theorem response_wire_nonHEAD (r : WResp) (hs : mustSkipCL r.status = false) : respWireH r false = respWire r :=
+  respWireH_false r hs
+
+example : mustSkipCL H1.RT.exFixed.status = false ∧ mustSkipCL H1.RT.exChunked.status = false := by decide
+
+open Hertz.H1.RT in
+/-- stage (head, any framing): `ReadHeaders` on the head `resp.Write` produces for framing `f` -/
+theorem response_head_roundtrip_framed (dn : Bool) (e : End) (r : WResp) (f : H1.Resp.Framing) (rest : Bytes)
+    (hw : wfHeadB dn r = true) (h100 : r.status ≠ 100) (hn : ∀ n, f = .cl n → n < 2 ^ 63) :
+    readHeaders dn e ((r.hdrFor f).bytes ++ rest) = .ok (r.seenHeadFor f, rest) :=
+  readHeaders_hdrFor dn e r f rest (wfHeadB_parts hw) h100 hn
+
+/-- non-vacuity: the head of `exFixed` (Server, Date, Content-Type, `X-Id`, cookie, `Connection: close`) with each framing -/
+example : H1.RT.wfHeadB false H1.RT.exFixed = true ∧ H1.RT.exFixed.status ≠ 100 ∧
+    (∀ n, (H1.Resp.Framing.cl 5) = .cl n → n < 2 ^ 63) ∧
+    (H1.RT.exFixed.seenHeadFor .chunked).cl = -1 ∧ (H1.RT.exFixed.seenHeadFor (.cl 5)).clBytes = [53] ∧
+    (H1.RT.exFixed.seenHeadFor .none).connClose = true := by
+  refine ⟨by decide +kernel, by decide, ?_, by decide +kernel, by decide +kernel, by decide +kernel⟩
+  intro n h; cases h; decide
+
+open Hertz.H1.RT in
+/-- 1xx other than 100, 204, 304: head only, no body whatever the handler set, following bytes untouched -/
+theorem response_roundtrip_bodiless (dn : Bool) (maxBody : Nat) (e : End) (r : WResp) (isHead : Bool) (rest : Bytes)
+    (hw : wfBodiless dn r = true) :
+    readResponse dn maxBody e (respWireH r isHead ++ rest) =
+      .ok { head := r.seenHeadBodiless, body := [], trailers := [], rest := rest } :=
+  H1.RT.response_roundtrip_bodiless dn maxBody e r isHead rest hw
+
+open Hertz.H1.RT in
+/-- a bodiless status whose head still announces a framing (`f`): the announcement is ignored -/
+theorem response_roundtrip_bodiless_declared (dn : Bool) (maxBody : Nat) (e : End) (r : WResp) (f : H1.Resp.Framing)
+    (rest : Bytes) (hw : wfBodiless dn r = true) (hn : ∀ n, f = .cl n → n < 2 ^ 63) :
+    readResponse dn maxBody e ((r.hdrFor f).bytes ++ rest) =
+      .ok { head := r.seenHeadFor f, body := [], trailers := [], rest := rest } :=
+  H1.RT.response_roundtrip_bodiless_declared dn maxBody e r f rest hw hn
+
+/-- non-vacuity: `204 No Content` with Server, `X-Id: 7`, a cookie and a handler-set body `hello`;
+`304` with an `Etag` and a body stream; and what the reader returns for the first, followed by `1 2 3` -/
+example : H1.RT.wfBodiless false H1.RT.exNoContent = true ∧ H1.RT.wfBodiless true H1.RT.exNotModified = true := by
+  decide +kernel
+
+example : (readResponse false 0 .eof (H1.RT.respWireH H1.RT.exNoContent false ++ [1, 2, 3])).toOption.map
+      (fun x => (x.head.status, x.head.cl, x.head.h, x.body, x.rest)) =
+    some (204, -2, [([88, 45, 73, 100], [55])], [], [1, 2, 3]) := by
+  rw [H1.RT.response_roundtrip_bodiless false 0 .eof _ false _ (by decide +kernel)]
+  rfl
+
+/-- `204` announcing `Content-Length: 3`, followed by `1 2 3`: no body, the three bytes stay -/
+example : (readResponse false 0 .eof ((H1.RT.exNoContent.hdrFor (.cl 3)).bytes ++ [1, 2, 3])).toOption.map
+      (fun x => (x.head.cl, x.body, x.rest)) = some (3, [], [1, 2, 3]) := by
+  rw [H1.RT.response_roundtrip_bodiless_declared false 0 .eof _ (.cl 3) _ (by decide +kernel) (by intro n h; cases h; decide)]
+  rfl
+
+open Hertz.H1.RT in
+/-- answer to HEAD, the head: framing fields of the body that was not sent, nothing after the head consumed -/
+theorem response_head_HEAD (dn : Bool) (e : End) (r : WResp) (rest : Bytes) (hw : wfRespH dn r = true) :
+    readHeaders dn e (respWireH r true ++ rest) = .ok (r.seenHeadFor r.headFraming, rest) :=
+  H1.RT.response_head_HEAD dn e r rest hw
+
+open Hertz.H1.RT in
+/-- with `SkipBody` off the extended reader is the model function `readResponse` -/
+theorem skipbody_off_is_readResponse (dn : Bool) (maxBody : Nat) (e : End) (s : Bytes) :
+    readResponseSkip false dn maxBody e s = readResponse dn maxBody e s :=
+  readResponseSkip_false dn maxBody e s
+
+open Hertz.H1.RT in
+/-- answer to HEAD read with `SkipBody` (as the client does): head, empty body, `rest` untouched -/
+theorem response_roundtrip_HEAD (dn : Bool) (maxBody : Nat) (e : End) (r : WResp) (rest : Bytes) (hw : wfRespH dn r = true) :
+    readResponseSkip true dn maxBody e (respWireH r true ++ rest) =
+      .ok { head := r.seenHeadFor r.headFraming, body := [], trailers := [], rest := rest } :=
+  H1.RT.response_roundtrip_HEAD dn maxBody e r rest hw
+
+/-- non-vacuity: the `200`/`hello` and the streamed `404` example answering HEAD (announced framing
+`Content-Length: 5` resp. `chunked`), the close-delimited example with its body (`Content-Length: 5`),
+the same without a body (no framing field), a `204` -/
+example : H1.RT.wfRespH false H1.RT.exFixed = true ∧ H1.RT.wfRespH true H1.RT.exChunked = true ∧
+    H1.RT.wfRespH false H1.RT.exNoContent = true ∧
+    H1.RT.exFixed.headFraming = .cl 5 ∧ H1.RT.exChunked.headFraming = .chunked ∧
+    ({ H1.RT.exUntilClose with body := .fixed [] } : H1.RT.WResp).headFraming = .none ∧
+    H1.RT.exNoContent.headFraming = .none := by
+  decide +kernel
+
+/-- the head a client holds after a HEAD exchange with `exFixed`: `Content-Length: 5` known, no body read,
+and the next response's first bytes (`HT`) still on the connection -/
+example : (H1.RT.readResponseSkip true false 0 .stall (H1.RT.respWireH H1.RT.exFixed true ++ [72, 84])).toOption.map
+      (fun x => (x.head.cl, x.head.clBytes, x.body, x.rest)) = some (5, [53], [], [72, 84]) := by
+  rw [H1.RT.response_roundtrip_HEAD false 0 .stall _ _ (by decide +kernel)]
+  decide +kernel
+
+open Hertz.H1.RT in
+/-- read-until-close framing: the body is every byte after the head -/
+theorem response_roundtrip_until_close (dn : Bool) (maxBody : Nat) (e : End) (r : WResp) (hw : wfRespC dn r = true)
+    (hmax : maxBody = 0 ∨ r.body.content.length ≤ maxBody) :
+    readResponse dn maxBody e (closeWire r) =
+      .ok { head := { r.seenHead with connClose := true }, body := r.body.content, trailers := [], rest := [] } :=
+  H1.RT.response_roundtrip_until_close dn maxBody e r hw hmax
+
+/-- non-vacuity: `HTTP/1.1 200 OK`, `X-Id: 7`, empty line, `hello`, EOF -/
+example : H1.RT.wfRespC false H1.RT.exUntilClose = true ∧
+    H1.RT.closeWire H1.RT.exUntilClose =
+      [72, 84, 84, 80, 47, 49, 46, 49, 32, 50, 48, 48, 32, 79, 75, 13, 10, 88, 45, 73, 100, 58, 32, 55, 13, 10, 13, 10,
+       104, 101, 108, 108, 111] := by
+  decide +kernel
 
 /-- the size bound on chunks in `wfResp` is tight: `WriteHexInt(16^15)` has 16 digits and is refused -/
 theorem chunk_size_limit_tight (e : End) (X : Bytes) :
